@@ -184,7 +184,8 @@ func structish(t reflect.Type) bool {
 }
 
 var vLeafTypes = []reflect.Type{gen.TString, gen.TString, gen.TString, gen.TBool, gen.TInt, gen.TInt8, gen.TInt32, gen.TInt64, gen.TUint, gen.TUint8, gen.TUint32, gen.TUint64, gen.TFloat32, gen.TFloat64,
-	reflect.TypeOf([]int(nil)), reflect.TypeOf([]string(nil)), reflect.TypeOf([]float64(nil)), reflect.TypeOf([]uint8(nil))}
+	reflect.TypeOf([]int(nil)), reflect.TypeOf([]string(nil)), reflect.TypeOf([]float64(nil)), reflect.TypeOf([]uint8(nil)),
+	gen.TGInt, gen.TGStr, gen.TGUint, gen.TGBool, reflect.SliceOf(gen.TGStr), reflect.SliceOf(gen.TGInt)} // defined types: same kinds, other identities
 
 // tunedFill fills a value of a tagged type so that values sit near the bounds of the rules.
 func tunedFill(rng *rand.Rand, t reflect.Type, tagName string, pZero float64) reflect.Value {
